@@ -1191,6 +1191,25 @@ theorem trans_C16_setters_before_start_v2 (r : T_v2_batcher_set) (h : r.phase = 
   simp [v2_WithRateLimiter, v2_WithFlushInterval, v2_WithCapacityInterval, v2_WithAuditInterval,
     v2_WithMaxOperationTime, v2_WithPauseTime, v2_WithErrorOnFullBuffer, h]
 
+/-! ### shutting down; marking a partition -/
+
+/-- v2 `shutdown()` (run by the loop when the context is cancelled): the buffer is shut down (its waiters are released:
+`trans_C15_shutdown`, `BufM`), the phase becomes stopped, one shutdown event is raised - whatever the phase was -/
+theorem trans_C15_C16_shutdown_v2 (ph : Int) : v2_shutdown ⟨ph⟩ = (⟨3⟩, true, "ShutdownEvent|") := rfl
+
+theorem trans_C17_shutdown_v2 (ph : Int) : v2_sr_shutdown ⟨ph⟩ = (⟨3⟩, "ShutdownEvent|") := rfl
+
+/-- `setPartitionId(i, id)` (after a grant) marks exactly partition `i` as held and touches no other; with the pick's
+guarantee that `i` was free, the loop then holds one partition more -/
+theorem trans_C04_C07_setPartitionId_v2 (r : T_v2_sharedResource) (i : Nat) (hi : i < r.partitions.length) :
+    (v2_sr_setPartitionId r i).partitions.length = r.partitions.length ∧
+    (v2_sr_setPartitionId r i).partitions.getD i false = true ∧
+    (∀ j, j ≠ i → (v2_sr_setPartitionId r i).partitions.getD j false = r.partitions.getD j false) := by
+  simp only [v2_sr_setPartitionId, Int.toNat_natCast, List.length_set, List.getD_eq_getElem?_getD, List.getElem?_set]
+  refine ⟨trivial, by simp [hi], fun j hj => ?_⟩
+  have : ¬ i = j := fun h => hj h.symm
+  simp [this]
+
 /-! ### non-vacuity: the translated functions on concrete values (also a readable trace of what they compute) -/
 
 example : v2_incTarget ⟨7⟩ 5 = ⟨12⟩ ∧ v2_incTarget ⟨7⟩ (-5) = ⟨2⟩ ∧ v2_incTarget ⟨7⟩ (-9) = ⟨0⟩ ∧ v2_incTarget ⟨7⟩ 0 = ⟨7⟩ := by decide
